@@ -91,7 +91,7 @@ func (W *vWorld) checkVisits(tag string, q *vQuerySpec, visits *[vNE]int, strang
 		n += exp
 	}
 	vcheck(tag+"/total", total == n)
-	return n
+	return vconcreteInt(n) // the count is a sum of (merged) 0/1 terms: make it concrete for the callers' loops
 }
 
 // unsafe query walk + Count + EntityAt
